@@ -83,26 +83,39 @@ func (w *World) CheckTx(r *Replica, bz []byte, recheck bool) abci.ResponseCheckT
 // as CometBFT's handshake/replay does.
 func (w *World) Restart(i int) (*Violation, error) {
 	r := w.Reps[i]
+	if r.Stalled {
+		return nil, nil
+	}
 	k := len(w.BlockTxs)
 	r.App = nil
 	r.DB.Phase = "restart"
 	r.App = w.newApp(r)
 	r.Restarts++
 	w.Stats.Fault("crash_restart")
-	if k > 0 {
-		w.Stats.Fault("crash_mid_block")
+	last := w.Height
+	if w.InBlock {
+		last = w.Height - 1
+		if k > 0 {
+			w.Stats.Fault("crash_mid_block")
+		}
+	} else {
+		w.Stats.Fault("crash_at_boundary")
 	}
-	info := r.App.Info(abci.RequestInfo{})
-	if info.LastBlockHeight != w.Height-1 {
-		return Violatef("restart-info", "restart-height-mismatch", "replica %d reports height %d after restart, expected %d", i, info.LastBlockHeight, w.Height-1), nil
-	}
-	if !bytes.Equal(info.LastBlockAppHash, w.Header.AppHash) && w.Height > 1 {
-		return Violatef("restart-info", "restart-apphash-mismatch", "replica %d reports app hash %X after restart, expected %X", i, info.LastBlockAppHash, w.Header.AppHash), nil
-	}
-	if w.Height == 1 {
-		// nothing was ever committed: CometBFT would run InitChain again
+	if last == 0 {
 		return nil, fmt.Errorf("restart before first commit is not modelled")
 	}
+	info := r.App.Info(abci.RequestInfo{})
+	if info.LastBlockHeight != last {
+		return Violatef("restart-info", "restart-height-mismatch", "replica %d reports height %d after restart, expected %d", i, info.LastBlockHeight, last), nil
+	}
+	want := w.lastAppHash()
+	if want != nil && !bytes.Equal(info.LastBlockAppHash, want) {
+		return Violatef("restart-info", "restart-apphash-mismatch", "replica %d reports app hash %X after restart at height %d, expected %X", i, info.LastBlockAppHash, last, want), nil
+	}
+	if !w.InBlock {
+		return nil, nil
+	}
+	r.FirstBegin = w.Height
 	if err := w.safely(r, "begin", func() { r.App.BeginBlock(w.BlockReq) }); err != nil {
 		return nil, err
 	}
@@ -111,6 +124,17 @@ func (w *World) Restart(i int) (*Violation, error) {
 		r.App.DeliverTx(abci.RequestDeliverTx{Tx: bz})
 	}
 	return nil, nil
+}
+
+// lastAppHash is the app hash of the last committed block as the network knows it.
+func (w *World) lastAppHash() []byte {
+	if w.InBlock {
+		return w.Header.AppHash
+	}
+	if n := len(w.BlockLog); n > 0 {
+		return w.BlockLog[n-1].AppHash
+	}
+	return nil
 }
 
 // Fork clones replica i's disk at the last committed boundary and opens a new
